@@ -27,22 +27,24 @@ _INTEL = ["CycloneIVPLL", "CycloneVPLL", "Cyclone10LPPLL", "Max10PLL", "StratixV
 _GOWIN = ["GW1NPLL", "GW2APLL", "GW5APLL"]
 
 
-def _g(name, helpers, sample, single=0, full=0):
-    """sample: number of TLC-simulated requests; single / full: cap of the exhaustive enumerations of all
-    one-output requests / of all ways to fill every output from the small alphabet (0 = not run)"""
-    return {"name": name, "helpers": helpers, "sample": sample, "single": single, "full": full}
+def _g(name, helpers, sample, single=0, full=0, edge=0, edge_outs=1):
+    """sample: number of TLC-simulated requests; single / full / edge: cap of the exhaustive enumerations of all
+    one-output requests / of all ways to fill every output from the small alphabet / of all requests of
+    1..edge_outs outputs at the edges of the reachable output band (0 = not run)"""
+    return {"name": name, "helpers": helpers, "sample": sample, "single": single, "full": full, "edge": edge,
+            "edge_outs": edge_outs}
 
 
 PLAN = {
     "quick": [
-        _g("xilinx7", ["S7PLL", "S7MMCM"], 220),
-        _g("lattice", ["ECP5PLL", "iCE40PLL"], 260, full=2000),
-        _g("xilinx6us", ["S6PLL", "S6DCM"] + _XUS, 120),
-        _g("uspmmcm", ["USPMMCM"], 30),
-        _g("nx", ["NXPLL"], 60),
-        _g("intel", _INTEL, 80),
-        _g("gowin", _GOWIN, 180),
-        _g("trion", ["TRIONPLL"], 60),
+        _g("xilinx7", ["S7PLL", "S7MMCM"], 220, edge=5000),
+        _g("lattice", ["ECP5PLL", "iCE40PLL"], 260, full=2000, edge=5000),
+        _g("xilinx6us", ["S6PLL", "S6DCM"] + _XUS, 120, edge=5000),
+        _g("uspmmcm", ["USPMMCM"], 30, edge=5000),
+        _g("nx", ["NXPLL"], 60, edge=5000),
+        _g("intel", _INTEL, 80, edge=5000),
+        _g("gowin", _GOWIN, 180, edge=5000),
+        _g("trion", ["TRIONPLL"], 60, edge=5000),
     ],
     "thorough": [
         _g("xilinx7", ["S7PLL", "S7MMCM"], 2500, single=3000, full=2500),
@@ -312,7 +314,7 @@ def _run(prop, report, tier, seed, scratch):
         got, res = gen_requests(gd, "sample", g["sample"], seed, scratch)
         tlc_states += res.generated
         extra = {}
-        for mode, maxouts in (("single", 1), ("full", 4)):
+        for mode, maxouts in (("single", 1), ("full", 4), ("edge", g["edge_outs"])):
             extra[mode] = []
             if g[mode]:
                 ex, res2 = gen_requests(gd, mode, 0, seed, scratch, maxouts=maxouts)
@@ -323,13 +325,14 @@ def _run(prop, report, tier, seed, scratch):
                     ex = [ex[int(i * step)] for i in range(g[mode])]
                 extra[mode] = ex
         n0 = len(reqs)
-        for r in got + extra["single"] + extra["full"]:
+        for r in got + extra["single"] + extra["full"] + extra["edge"]:
             k = _key(r)
             if k not in seen:
                 seen.add(k)
                 reqs.append(r)
         groups[g["name"]] = {"helpers": g["helpers"], "sampled": len(got), "single_output_enumerated": len(extra["single"]),
-                             "all_outputs_enumerated": len(extra["full"]), "distinct_requests": len(reqs) - n0}
+                             "all_outputs_enumerated": len(extra["full"]),
+                             "band_edge_enumerated": len(extra["edge"]), "distinct_requests": len(reqs) - n0}
     t1 = time.time()
     # ---- 2. execute on the real helpers
     cases = _pool_run(reqs)
